@@ -40,7 +40,7 @@ Definition C17_drop_statement : Prop :=
 Definition C17_full_statement : Prop :=
   C17_create_statement (fun _ _ => true) /\ C17_index_statement index_wide /\ C17_drop_statement.
 
-Definition w_table := mk_table "t" None.
+Definition w_table := tbl "t".
 
 (* ---- the CREATE TABLE and DROP parts hold in full ----
    (since 1e06637 the Vertica builder rejects unlogged() instead of dropping it, since d178bc5 it prints
@@ -68,6 +68,21 @@ Proof.
   vm_compute in H1. inversion H1. subst s. vm_compute in H2. discriminate.
 Qed.
 Print Assumptions C17_index_refuted_unquoted.
+
+(* A Table object carrying an alias (shared with a SELECT) handed to a DDL builder: Table.get_sql
+   appends the alias, and the statement is no longer one that names the table - in all four places a
+   table is taken. [table_ok] (the hypothesis of the theorems above) asks for alias-free targets;
+   [table_wide] is what a caller may pass. *)
+Definition w_aliased := mk_table "t" ["s"] (Some "x").
+Theorem C17_alias_refuted :
+  table_wide QDouble w_aliased = true
+  /\ drop_text DGeneric [DDrop KTable (DTTable w_aliased)] = "DROP TABLE ""s"".""t"" ""x"""
+  /\ parse_drop QDouble QDouble (drop_text DGeneric [DDrop KTable (DTTable w_aliased)]) = None
+  /\ parse_create QDouble (create_text CGeneric w_aliased [KColumns [CAStr "a"]]) = None
+  /\ parse_create QDouble (create_text CGeneric w_table [KColumns [CAStr "a"]; KForeignKey ["a"] w_aliased ["b"] None None]) = None
+  /\ parse_index (index_text (INStr "i") [XOn (ITObj w_aliased); XColumns [CAStr "a"]]) = None.
+Proof. vm_compute. repeat split. Qed.
+Print Assumptions C17_alias_refuted.
 
 Theorem C17_refuted : ~ C17_full_statement.
 Proof. intros [_ [H _]]. exact (C17_index_refuted_unquoted H). Qed.
@@ -185,7 +200,7 @@ Definition ex_calls : list ccall :=
   [ KIfNotExists;
     KUnique ["a"; "b_c"];
     KColumns [CAStr "a"; CATuple "b_c" "VARCHAR(100)"];
-    KForeignKey ["a"] (mk_table "parent" (Some "s")) ["x"] (Some RCascade) (Some RSetNull);
+    KForeignKey ["a"] (mk_table "parent" ["db"; "s"] None) ["x"] (Some RCascade) (Some RSetNull);
     KTemporary;
     KColumns [CACol (mk_column "d" (Some "DECIMAL(10, 2)") (Some false) (Some "0"));
               CACol (mk_column "e" None (Some true) (Some "'it''s (ok)'"))];
@@ -206,7 +221,7 @@ Print Assumptions C17_example_create.
 
 Example C17_example_text :
   create_text CGeneric w_table ex_calls =
-  "CREATE TEMPORARY TABLE IF NOT EXISTS ""t"" (""a"",""b_c"" VARCHAR(100),""d"" DECIMAL(10, 2) NOT NULL DEFAULT 0,""e"" NULL DEFAULT 'it''s (ok)',PERIOD FOR ""p"" (""d"",""e""),UNIQUE (""a"",""b_c""),UNIQUE (""d""),PRIMARY KEY (""a"",""d""),FOREIGN KEY (""a"") REFERENCES ""s"".""parent"" (""x"") ON DELETE CASCADE ON UPDATE SET NULL) WITH SYSTEM VERSIONING"
+  "CREATE TEMPORARY TABLE IF NOT EXISTS ""t"" (""a"",""b_c"" VARCHAR(100),""d"" DECIMAL(10, 2) NOT NULL DEFAULT 0,""e"" NULL DEFAULT 'it''s (ok)',PERIOD FOR ""p"" (""d"",""e""),UNIQUE (""a"",""b_c""),UNIQUE (""d""),PRIMARY KEY (""a"",""d""),FOREIGN KEY (""a"") REFERENCES ""db"".""s"".""parent"" (""x"") ON DELETE CASCADE ON UPDATE SET NULL) WITH SYSTEM VERSIONING"
   /\ create_text CVertica w_table [KTemporary; KLocal; KIfNotExists; KColumns [CAStr "a"]; KPreserveRows]
      = "CREATE LOCAL TEMPORARY TABLE IF NOT EXISTS ""t"" (""a"") ON COMMIT PRESERVE ROWS"
   /\ create_text CGeneric w_table [KColumns [CAStr "a"]; KPrimaryKey ["a"]; KPrimaryKey ["b"]] = "!AttributeError"
@@ -226,20 +241,20 @@ Proof. eexists; split; [vm_compute; reflexivity|]; vm_compute; repeat split; ref
 Print Assumptions C17_example_vertica.
 
 Example C17_example_index :
-  let calls := [XWhere """a"">1"; XUnique; XColumns [CAStr "a"; CATuple "b" "INT"]; XOn (ITObj (mk_table "my  t" (Some "s"))); XIfNotExists; XWhere """c"" IS NULL"] in
+  let calls := [XWhere """a"">1"; XUnique; XColumns [CAStr "a"; CATuple "b" "INT"]; XOn (ITObj (mk_table "my  t" ["db"; "s"] None)); XIfNotExists; XWhere """c"" IS NULL"] in
   index_frag (ibuild (INStr "my idx") calls) = true
   /\ render_index (ibuild (INStr "my idx") calls)
-     = Ok "CREATE UNIQUE INDEX IF NOT EXISTS ""my idx"" ON ""s"".""my  t""(a, b) WHERE ""a"">1 AND ""c"" IS NULL"
-  /\ option_map x_cols (parse_index "CREATE UNIQUE INDEX IF NOT EXISTS ""my idx"" ON ""s"".""my  t""(a, b) WHERE ""a"">1 AND ""c"" IS NULL")
+     = Ok "CREATE UNIQUE INDEX IF NOT EXISTS ""my idx"" ON ""db"".""s"".""my  t""(a, b) WHERE ""a"">1 AND ""c"" IS NULL"
+  /\ option_map x_cols (parse_index "CREATE UNIQUE INDEX IF NOT EXISTS ""my idx"" ON ""db"".""s"".""my  t""(a, b) WHERE ""a"">1 AND ""c"" IS NULL")
      = Some ["a"; "b"].
 Proof. vm_compute. repeat split. Qed.
 Print Assumptions C17_example_index.
 
 Example C17_example_drop :
-  let calls := [DIfExists; DDrop KTable (DTTable (mk_table "t" (Some "s"))); DOnCluster "c"] in
-  drop_text DClickHouse calls = "DROP TABLE IF EXISTS ""s"".""t"" ON CLUSTER ""c"""
-  /\ last_drop calls = Some (KTable, DTTable (mk_table "t" (Some "s")))
-  /\ target_ok QDouble (DTTable (mk_table "t" (Some "s"))) = true
+  let calls := [DIfExists; DDrop KTable (DTTable (mk_table "t" ["db"; "s"] None)); DOnCluster "c"] in
+  drop_text DClickHouse calls = "DROP TABLE IF EXISTS ""db"".""s"".""t"" ON CLUSTER ""c"""
+  /\ last_drop calls = Some (KTable, DTTable (mk_table "t" ["db"; "s"] None))
+  /\ target_ok QDouble (DTTable (mk_table "t" ["db"; "s"] None)) = true
   /\ drop_text DMySQL [DDrop KView (DTStr "v")] = "DROP VIEW `v`"
   /\ drop_text DGeneric [DDrop KTable (DTStr "t"); DDrop KView (DTStr "v")] = "!AttributeError".
 Proof. vm_compute. repeat split. Qed.
